@@ -17,6 +17,7 @@ import re
 
 from . import lib
 from .esc_lang import enc, dec
+from . import esc_i18n_ast as A
 
 RULE = ("generated trans blocks: 0-3 declared variables, free names, optional context string, optional pluralize with "
         "count in {0,1,2,5} (count variable declared, named num, or first free name), trimmed / notrimmed / policy, text "
@@ -229,6 +230,7 @@ def run(ctx):
         "K-trim and the oracle",
     ]
     ctx.proof("C33")
+    ctx.proof("C33ext")
 
     # ---------------- K-fmt / K-trim
     # bare %s / %r would format the whole mapping: outside the restricted language (_parse_block never emits them)
@@ -370,6 +372,73 @@ def run(ctx):
             else:
                 ctx.validated()
 
+    run_second_part(ctx, jinja2, blocks)
+
+
+def judge_ast_runtime(jinja2, src, newstyle, real_entries):
+    """the property on one K-ast source: every message recorded while rendering it is among the extracted ones"""
+    import types
+    fn = lambda *a, **k: ""      # noqa: E731
+    data = {"v": "V", "n": 2, "kw": {}, "ar": ["A"], "obj": types.SimpleNamespace(gettext=fn), "f": fn, "f2": fn, "other": fn,
+            "m2": fn, "x": "x", "y": "y", "a": {}, "user": "u"}
+    out, rec, err = real_run(jinja2, src, data, [], "new" if newstyle else "old", False, False)
+    if not isinstance(real_entries, list):
+        return None
+    have = {(("gettext" if f == "_" else f), tuple(x for x in slots if x is not None)) for f, slots in real_entries}
+    for c in rec:
+        if any(not isinstance(x, str) for x in c[1:]):
+            continue          # message computed at run time: not a constant of the template
+        if (c[0], tuple(c[1:])) not in have and not any(h[0] == c[0] and h[1][:len(c) - 1] == tuple(c[1:]) for h in have):
+            return f"message {c!r} passed at run time is not reported by extract_from_ast"
+    return None
+
+
+def run_second_part(ctx, jinja2, blocks):
+    """K-ast (generic AST walk of extract_from_ast) and K-trimblock (trimmed block = block of the trimmed text)"""
+    env = jinja2.Environment(extensions=["jinja2.ext.i18n"])
+    srcs = [A.gen_source(ctx.rng) for _ in range(ctx.size(600, 6000))]
+    for style in (False, True):
+        env.newstyle_gettext = style
+        trees, keep = [], []
+        for src in srcs:
+            try:
+                trees.append(env.parse(src)); keep.append(src)
+            except Exception:
+                ctx.case(); ctx.count("k_ast_parse_error")
+        outs = ctx.driver("i18nx", [A.model_line(jinja2, t) for t in trees])
+        for src, tree, o in zip(keep, trees, outs):
+            m = A.parse_model(o)
+            try:
+                real = A.real_entries(jinja2, tree)
+            except Exception as e:
+                real = "X:" + type(e).__name__
+            nested = "_(_(" in src or "k=_(" in src or "a=_(" in src or "f2(" in src
+            ctx.case(sample={"tie": "K-ast", "source": src, "extracted": real} if nested and len(ctx.samples) < 6 else None,
+                     key=("ast", src, style) if nested else None)
+            ctx.count("k_ast")
+            if m != real:
+                ctx.model_mismatch("K-ast I18nTrim.extract vs extract_from_ast", {"kind": "ast", "source": src, "newstyle": style},
+                                   m, real, judge_ast_runtime(jinja2, src, style, real), "C33:extraction")
+            else:
+                ctx.validated()
+    ext = env.extensions["jinja2.ext.InternationalizationExtension"]
+    lines, fmts = [], []
+    for b in blocks:
+        for ps in (b["sing"], b["plur"]):
+            if ps is None:
+                continue
+            lines.append(" ".join(["B", str(len(ps))] + [p[0] + ":" + enc(p[1]) for p in ps]))
+            fmts.append("".join(p[1].replace("%", "%%") if p[0] == "t" else "%(" + p[1] + ")s" for p in ps))
+    for ln, f, o in zip(lines, fmts, ctx.driver("i18nx", lines)):
+        a, b2 = [dec(x) for x in o.split(" | ")]
+        real = ext._trim_whitespace(f)
+        ctx.case(key=("trimblock", f) if "\n" in f else None)
+        ctx.count("k_trimblock")
+        if not (a == b2 == real):
+            ctx.model_mismatch("K-trimblock fmt_of true / parse_block(trim_block) vs _trim_whitespace", {"fmt": f}, [a, b2], real, None)
+        else:
+            ctx.validated()
+
 
 def replay(ctx, data):
     jinja2 = lib.use_repo_jinja()
@@ -387,6 +456,14 @@ def replay(ctx, data):
         print("source  :", case["source"], "\nrendered:", repr(out), err or "", "\nspec    :", repr(spec), "\ncalls   :", rec)
         if out != spec:
             ctx.reject(case, f"rendered {out!r}, documented {spec!r}", "C33:trans-block")
+    elif case.get("kind") == "ast":
+        env = jinja2.Environment(extensions=["jinja2.ext.i18n"])
+        env.newstyle_gettext = case["newstyle"]
+        real = A.real_entries(jinja2, env.parse(case["source"]))
+        w = judge_ast_runtime(jinja2, case["source"], case["newstyle"], real)
+        print("source:", case["source"], "\nextracted:", real, "\noracle:", w)
+        if w:
+            ctx.reject(case, w, "C33:extraction")
     elif case.get("kind") == "extract":
         out, rec, err = real_run(jinja2, case["source"], case.get("data", {}), case.get("markup", []), case["style"], True, False)
         ea, eb = extract_both(jinja2, case["source"], case["style"], False)
